@@ -47,6 +47,7 @@ class FnSpec:
         self.vcline = None
         self.keep_generics = False
         self.vis = None
+        self.attrs = []       # `//@ attr <text>`: attribute lines put before the function (e.g. no termination claim for a retry loop)
         self.truncate_after = None
         self.tail_expr = None
 
@@ -181,6 +182,8 @@ class Unit:
                         cur.ret = arg
                     elif word == 'vis':
                         cur.vis = arg
+                    elif word == 'attr':
+                        cur.attrs.append(arg)
                     elif word == 'truncate_after':
                         cur.truncate_after = arg.strip()
                     elif word == 'tail':
@@ -436,6 +439,8 @@ def assemble(unit, index, expanded_name='expanded.rs', probe=None, lenient=False
             sig = re.sub(r'^\s*(pub(\s*\([^)]*\))?\s+)?', fs.vis + ' ' if fs.vis != 'none' else '', sig, count=1)
         dn = fs.display()
         lines = []
+        for a in fs.attrs:
+            lines.append(Line(a, 'lib', dn, fs.vcfile, fs.vcline))
         for k, ln in enumerate(sig.split('\n')):
             lines.append(Line(ln, 'src', dn, expanded_name, f.line + k, fs.props))
         sig_nl = sig.count('\n')
